@@ -185,8 +185,9 @@ def d2(ctx, F):
         for c in cr.calls():
             if strip_generics(c.callee) in ("core::bool::<impl bool>::then_some", "core::bool::<impl bool>::then") and flow.root(cr, c.args[0])[0] == "call" and flow.root(cr, c.args[0])[1] is ivc[0]:
                 tv = flow.derived(cr, {c.dest["l"]}, calls=("core::option::Option::ok_or", "core::option::Option::ok_or_else"))
-                oks = [1 for _, _, _, rv, _ in K.aggregates(cr, "core::result::Result") if rv["variant"] == "Ok"]
-                if 0 in tv and not oks:
+                # (ok_or may have been written out by the inliner: its Ok(payload) is fine when the payload is then_some's)
+                oks = [1 for _, _, _, rv, _ in K.aggregates(cr, "core::result::Result") if rv["variant"] == "Ok" and not any(op_local(o) in tv for o in rv["ops"])]
+                if (0 in tv or K.return_locals(cr) & tv) and not oks:
                     okc = True
     ctx.check(okc, "C07.D2.create-validates", "create:not-validated", "TopicName::create returns Ok only when is_valid() holds", cr.span)
 
@@ -265,6 +266,10 @@ def d4(ctx, F):
               "the refusal carries code INVALID_TOPIC_NAME", iv.span)
     frames = [rv["variant"] for i, j, pl, rv, s in K.aggregates(hs, "selium_protocol::frame::Frame", excl)]
     sends = [c for c in hs.calls() if c.bb in excl and strip_generics(c.callee) == "futures_util::sink::SinkExt::send"]
+    resets = [c for c in hs.calls() if c.bb in excl and c.name() in ("shutdown_sink", "shutdown_stream", "reset", "stop")]
+    ctx.check(not resets, "C07.D4.refusal-readable", "handle_stream:refusal-then-reset",
+              "after the refusal frame the stream is left to finish normally: no reset / stop that would discard the frame before the peer reads it (%s)"
+              % (", ".join(sorted({c.name() for c in resets})) or "none"), (resets or [iv])[0].span)
     ctx.check(frames == ["Error"] and len(sends) == 1, "C07.D4.refusal", "handle_stream:invalid-topic-not-refused",
               "the invalid-name edge sends exactly one frame, a Frame::Error (found frames %s, %d send)" % (frames, len(sends)), iv.span)
     # building and sending the refusal must not panic either (a panic in the per-stream task is swallowed by the runtime: the peer
